@@ -6,7 +6,8 @@ Require Import String.
 Require Import List NArith Bool PeanoNat Lia ZifyBool ZifyN.
 Require Import KV.Parser.Utf8 KV.Parser.Unicode KV.Parser.Keywords KV.Parser.Scanners KV.Parser.Grammar KV.Parser.Run.
 Require Import KV.Parser.Utf8Proofs KV.Parser.ScannerProofs KV.Parser.HelperProofs KV.Parser.GrammarProofs KV.Parser.RoundTrip KV.Parser.RoundTrip2 KV.Parser.RoundTrip3.
-Require KV.Parser.Lex KV.Parser.StmtRT KV.Parser.FilterRT KV.Parser.FilterRT2 KV.Parser.SelectRT KV.Parser.GroupRT KV.Parser.TopRT KV.Parser.ExamplesRT.
+Require KV.Parser.Lex KV.Parser.StmtRT KV.Parser.FilterRT KV.Parser.FilterRT2 KV.Parser.SelectRT KV.Parser.BindRT KV.Parser.ValuesRT KV.Parser.GroupRT
+        KV.Parser.PrologueRT KV.Parser.TopRT KV.Parser.SizeRT KV.Parser.ExamplesRT.
 Import ListNotations.
 Open Scope N_scope.
 
@@ -215,17 +216,18 @@ Proof. exact select_roundtrip. Qed.
 Print Assumptions C16_roundtrip_select.
 
 (* ---- (3') the round trip over layout-annotated syntax trees ----------------------------------------- *)
-(* Lex.v ... TopRT.v.  A concrete syntax tree (CST) is the source tree plus, at every token, the layout printed before it
+(* Lex.v ... SizeRT.v.  A concrete syntax tree (CST) is the source tree plus, at every token, the layout printed before it
    (`L`: a list of whitespace characters and `#` comments) and the letter case of every keyword; terms are structured
    (`Term`: the token classes of (2) plus `true` / `false`).  `pr_*` is the printer - a total function on CSTs -, `tr_*`
    forgets the annotations and gives the source tree (the parser's own tree type), `wf_* cst following` is a BOOLEAN
    well-formedness predicate relative to the text that follows (token characters in range, each token stopped by what
    follows it, the parser's negative look-aheads: the next text is not a keyword / operator that would continue the
-   construct), `sz_*` bounds the recursion fuel.  ExamplesRT.v evaluates the predicates on a 17-line request that uses
+   construct), `sz_*` bounds the recursion fuel.  ExamplesRT.v evaluates the predicates on a 23-line request that uses
    every construct (satisfiable), on two rejected variations (not trivially true), and re-derives the theorems' result
    by running the model. *)
 Section CST.
-Import KV.Parser.Lex KV.Parser.StmtRT KV.Parser.FilterRT KV.Parser.FilterRT2 KV.Parser.SelectRT KV.Parser.GroupRT KV.Parser.TopRT.
+Import KV.Parser.Lex KV.Parser.StmtRT KV.Parser.FilterRT KV.Parser.FilterRT2 KV.Parser.SelectRT KV.Parser.BindRT KV.Parser.ValuesRT KV.Parser.GroupRT
+       KV.Parser.PrologueRT KV.Parser.TopRT KV.Parser.SizeRT.
 
 (* a triples statement: subject, `;`-separated predicate groups (a predicate or `a`), `,`-separated objects, optional
    trailing `;`; any layout, every term class; the tree is the list of expanded triples *)
@@ -236,8 +238,11 @@ Proof. exact stmt_roundtrip. Qed.
 Print Assumptions C16_roundtrip_statement.
 
 (* FILTER: `||` over `&&` over atoms (`!` atom, the five RDF-star function calls, comparisons of arithmetic expressions,
-   bare arithmetic), arithmetic with `+ -` over `* /` over operands and parenthesised sums: the loops of the parser
-   build exactly the left-nested tree of the CST, i.e. the printed precedence is the parsed precedence *)
+   bare arithmetic, parenthesised boolean expressions), arithmetic with `+ -` over `* /` over operands and
+   parenthesised sums: the loops of the parser build exactly the left-nested tree of the CST, i.e. the printed
+   precedence is the parsed precedence.  For `( e )` the parser first tries the arithmetic readings (function call,
+   comparison `( sum ) op ...`) and only then the boolean one: bool_arith (FilterRT2.v) shows that these readings fail
+   on every printed boolean expression whose first atom is not a function call (`hd_or`, part of `wf_atom`). *)
 Theorem C16_roundtrip_filter_expression :
   forall o fuel rest, (sz_or o <= fuel)%nat -> wf_or o rest = true -> Valid rest -> after_atom rest ->
     no_op2 38 rest -> no_op2 124 rest -> f_or fuel (pr_or o ++ rest) = Ok (tr_or o, rest).
@@ -276,9 +281,25 @@ Proof.
 Qed.
 Print Assumptions C16_roundtrip_modifiers.
 
-(* group graph patterns and SELECT, mutually recursive: `{` items `}` where an item is a triples statement, FILTER,
-   GRAPH (variable | IRI | prefixed name) `{...}`, or a chain `{...} UNION {...} ...` whose members are group patterns
-   or sub-selects `{ SELECT ... }`; statements / GRAPH / chains may be followed by `.`; nesting is unbounded. *)
+(* BIND ( fname ( arg, ... ) AS ?v ) with variables, quoted literals (whose quotes the parser drops) and numbers as
+   arguments, `concat` canonicalised as the parser does; VALUES ?v { v ... } and VALUES ( ?v ... ) { ( v ... ) ... }
+   with IRIs, literals, numbers, booleans, prefixed names and UNDEF *)
+Theorem C16_roundtrip_bind :
+  forall b rest, wf_bind b rest = true -> Valid rest ->
+    bind_clause (pr_bind b ++ rest) =
+    Ok ((bind_fname (encode (bd_fn b)), map (fun x => barg_text (oterm x)) (bd_a1 b :: map om (bd_more b)), var_text (bd_v b)), rest).
+Proof. exact bind_rt. Qed.
+Print Assumptions C16_roundtrip_bind.
+
+Theorem C16_roundtrip_values :
+  forall c rest, wf_values c rest = true -> Valid rest ->
+    values_clause (pr_values c ++ rest) = Ok ((map var_text (vvars_list (vl_vars c)), map tr_row (vl_rows c)), rest).
+Proof. exact values_rt. Qed.
+Print Assumptions C16_roundtrip_values.
+
+(* group graph patterns and SELECT, mutually recursive: `{` items `}` where an item is a triples statement, FILTER, BIND,
+   VALUES, GRAPH (variable | IRI | prefixed name) `{...}`, or a chain `{...} UNION {...} ...` whose members are group
+   patterns or sub-selects `{ SELECT ... }`; statements / GRAPH / chains may be followed by `.`; nesting is unbounded. *)
 Theorem C16_roundtrip_group_pattern :
   forall p fuel rest, (sz_grp p <= fuel)%nat -> wf_grp p rest = true -> Valid rest ->
     group_pattern fuel (pr_grp p ++ rest) = Ok (tr_grp p, rest).
@@ -292,28 +313,46 @@ Theorem C16_roundtrip_select_core :
 Proof. exact (proj2 (proj2 (proj2 (proj2 (proj2 group_rt))))). Qed.
 Print Assumptions C16_roundtrip_select_core.
 
-(* the whole request, through both entry points: a SELECT query followed by layout (possibly ending in an unterminated
-   comment) up to the end of input parses to exactly its source tree *)
+(* PREFIX declarations: any letter case, layout also between `PREFIX`, the label, the colon and the IRI *)
+Theorem C16_roundtrip_prefix :
+  forall c rest, wf_prefix c = true -> Valid rest ->
+    prefix_declaration (pr_prefix c ++ rest) = Ok ((encode (px_p c), iri_body (px_iri c)), rest).
+Proof. exact prefix_rt. Qed.
+Print Assumptions C16_roundtrip_prefix.
+
+(* the whole request, through both entry points: a prologue, a SELECT query and then layout (possibly ending in an
+   unterminated comment) up to the end of input parse to exactly the source tree (a later PREFIX of the same label
+   replaces the earlier one, as HashMap::insert does) *)
 Theorem C16_roundtrip_query :
-  forall q e fuel, (sz_sel q <= fuel)%nat -> wf_sel q true (pr_end e) = true -> wf_end e = true ->
-    parse_sparql_query fuel (pr_sel q ++ pr_end e) = Ok (tr_sel q) /\
-    forall aliases, parse_top fuel aliases (pr_sel q ++ pr_end e) = Ok (TSelect [] (tr_sel q)).
-Proof. intros q e fuel Hf H He. split; [now apply query_roundtrip|intros; now apply top_select_roundtrip]. Qed.
+  forall ps q e fuel, (sz_sel q <= fuel)%nat -> forallb wf_prefix ps = true -> wf_sel q true (pr_end e) = true -> wf_end e = true ->
+    parse_sparql_query fuel (pr_prologue ps ++ pr_sel q ++ pr_end e) = Ok (tr_sel q) /\
+    forall aliases, parse_top fuel aliases (pr_prologue ps ++ pr_sel q ++ pr_end e) = Ok (TSelect (tr_prologue ps []) (tr_sel q)).
+Proof. intros ps q e fuel Hf Hps H He. split; [now apply query_roundtrip|intros; now apply top_select_roundtrip]. Qed.
 Print Assumptions C16_roundtrip_query.
+
+(* fuel adequacy for printed requests: `sz_sel q <= 3 * length (pr_sel q)` (SizeRT.v), so the fuel of Run.v that the
+   correspondence check uses is always enough - no fuel hypothesis is left *)
+Theorem C16_roundtrip_query_default_fuel :
+  forall ps q e aliases, forallb wf_prefix ps = true -> wf_sel q true (pr_end e) = true -> wf_end e = true ->
+    let text := pr_prologue ps ++ pr_sel q ++ pr_end e in
+    parse_sparql_query (default_fuel text) text = Ok (tr_sel q) /\
+    parse_top (default_fuel text) aliases text = Ok (TSelect (tr_prologue ps []) (tr_sel q)).
+Proof. exact query_roundtrip_default. Qed.
+Print Assumptions C16_roundtrip_query_default_fuel.
 End CST.
 
 (* C16_roundtrip_partial.  NOT proved as a round trip (decided on generated trees under ~10 layouts by the tree stream of
    checks/c16.py - implementation vs Spec tree vs this model - and by the exhaustive follower stream):
-   - in FILTER: a parenthesised BOOLEAN sub-expression `( e1 && e2 )`, and a bare arithmetic atom that starts with a
-     parenthesised operand (`FILTER((?a) * 2)`, which the parser in fact rejects);
-   - BIND and VALUES items of a group pattern;
-   - `.` after FILTER (the parser rejects it), OPTIONAL / MINUS (not in the grammar);
-   - the prologue (PREFIX declarations) in front of the request of C16_roundtrip_query (proved with an empty prologue);
+   - in FILTER: a parenthesised boolean expression whose FIRST atom is a function call, e.g. `(isTRIPLE(?x) && ...)`
+     (the failure of the parser's arithmetic reading of it is not proved), and a bare arithmetic atom that starts with
+     a parenthesised operand (`FILTER((?a) * 2)`, which the parser in fact rejects);
+   - `.` after FILTER / BIND / VALUES (the parser rejects it), OPTIONAL / MINUS (not in the grammar), a VALUES block
+     `( ?x ) { ( 1 ) }` with one parenthesised variable and parenthesised rows (rejected by the parser as well);
    - the six update forms (INSERT DATA, DELETE DATA, DELETE WHERE, INSERT / DELETE / DELETE-INSERT ... WHERE);
    - token classes: exponent forms of numbers, literals with language tag / datatype, long (triple-quoted) strings,
-     quoted triples `<< >>` as terms;
-   - fuel adequacy: the theorems take `sz_* cst <= fuel`; that Run.v's `default_fuel` (8 * length + 64) dominates
-     `sz_*` of every printed CST is evaluated on the example (ExamplesRT.query_parse_computed) but not proved. *)
+     quoted triples `<< >>` as terms, `bare identifiers` as subjects / objects;
+   - fuel adequacy for ARBITRARY input (that parse_top with Run.v's fuel never answers Fuel on a text that is not a
+     printed CST) is observed by the check, not proved; for printed requests it is C16_roundtrip_query_default_fuel. *)
 
 (* ---- the lexical helpers of the lowering (utils.rs) ------------------------------------------------ *)
 (* unescape_sparql_iri and literal_lexical_value (as repaired by 484100d: `hexadecimal.get(..digits)`) return a
